@@ -1,5 +1,6 @@
 import AlgoVerif.Base.Drv
 import AlgoVerif.Model.OpTables
+import AlgoVerif.Model.OpCheck
 import AlgoVerif.Gen.OpTable
 /-!
 Driver for C34: the model's verdict for one op line of harness/data/transactions/logic/zz_verif_c34_test.go
@@ -8,7 +9,7 @@ The tables are `buildTables Gen.OpTable.opSpecs` (the Lean replay of init() on t
 built tables.
 -/
 namespace AlgoVerif.Driver.C34
-open AlgoVerif.Drv Model.OpTables
+open AlgoVerif.Drv Model.OpTables Model.OpCheck
 
 def hexVal (c : Char) : Nat :=
   if '0' ≤ c ∧ c ≤ '9' then c.toNat - '0'.toNat
@@ -34,6 +35,11 @@ def handle (line : String) : String :=
     let m := if mode = "sig" then modeSig else modeApp
     let prog := hexBytes hex.toList
     let lv := Gen.OpTable.logicVersion
+    if kind = "br" then
+      match errOf (staticCheck tbl lv (nat! minv) m prog) with
+      | none => "chk=ok"
+      | some e => s!"chk={e.toString}"
+    else
     let c := checkVerdict tbl lv (nat! minv) m prog (nat! pc)
     let e := stepVerdict tbl Gen.OpTable.fieldGroups lv (nat! minv) m prog (nat! pc) (stackOf stk)
     let cs := match c with
